@@ -2,7 +2,7 @@ SPECIFICATION Spec
 CONSTANTS
     Feed <- FeedTwo
     Calls <- CallsNone
-    PipeCap = 2
+    PipeCap = 8
     MaxTicks = 0
     TimeoutOK = FALSE
     Faults <- CrashFaults
